@@ -986,3 +986,43 @@ def rule_offset_division(ctx):
                '`%s` ranges over %r for offsets between -24 h and +24 h: floor division / modulo of a negative quantity takes '
                'the remainder from the wrong side, so e.g. -00:30 is written as -01:30' % (norm(dividend), iv) if iv.lo < 0 else
                '`%s` in %r' % (norm(dividend), iv), node=e)
+
+
+# ------------------------------------------------------------------- W.real10
+
+_TRUEDIV_POSITIVE = '''
+def f(value):
+    m, b, e = value
+    while m and m % 10 == 0:
+        m /= 10
+        e += 1
+    return m, b, e
+'''
+
+
+def _true_divisions(fnode):
+    return [n for n in walk_own(fnode) if (isinstance(n, ast.BinOp) and isinstance(n.op, ast.Div)) or
+            (isinstance(n, ast.AugAssign) and isinstance(n.op, ast.Div))]
+
+
+def rule_real_base10_exact(ctx):
+    """W.real10: building a REAL value from (mantissa, 10, exponent) keeps an integer mantissa exact: trailing zeros are
+    moved into the exponent with integer division.  True division turns the mantissa into a float: above 2**53 it is
+    rounded (another value), above 1e308 it raises OverflowError (which is not a PyAsn1Error)."""
+    if len(_true_divisions(ast.parse(_TRUEDIV_POSITIVE).body[0])) != 1:
+        raise AnalysisError('W.real10 self-check failed')
+    c = ctx.cls('type.univ.Real')
+    fs = [f for f in ctx.prog.all_functions() if f.cls is c and (f.name in ('prettyIn',) or 'normalizeBase10' in f.name)]
+    if len(fs) < 2:
+        raise AnalysisError('Real.prettyIn / base-10 normalisation not found')
+    for f in fs:
+        divs = _true_divisions(f.node)
+        ctx.ob('W.real10', f, 'no true division of the mantissa', not divs,
+               '`%s`: an integer mantissa becomes a float - 123456789012345678900 comes back as 12345678901234567168 * 10, and a '
+               'decimal mantissa beyond 1e308 (09 .. 01 31 30 30 30 ..) raises OverflowError out of the decoder' % norm(divs[0])
+               if divs else 'integer arithmetic only', node=divs[0] if divs else f.node)
+    norm10 = [f for f in fs if 'normalizeBase10' in f.name][0]
+    loops = [n for n in walk_own(norm10.node) if isinstance(n, ast.While)]
+    ok = len(loops) == 1 and any(isinstance(s, ast.AugAssign) and isinstance(s.op, ast.FloorDiv) and const_int(s.value) == 10 for s in loops[0].body) \
+        and any(isinstance(s, ast.AugAssign) and isinstance(s.op, ast.Add) and const_int(s.value) == 1 for s in loops[0].body)
+    ctx.ob('W.real10', norm10, 'each trailing zero of the mantissa moves into the exponent (m //= 10; e += 1)', ok, '')
